@@ -58,6 +58,10 @@ ULeaves == <<
   Util("Exclude", <<Uni(<<LS("a"), LS("b"), LN("1"), TNull>>), TString>>), Util("Exclude", <<Uni(<<RK, TNumber>>), LS("a")>>),
   Util("Exclude", <<Uni(<<LS("a"), LS("b")>>), Uni(<<LS("b"), LS("c")>>)>>), Util("Exclude", <<Uni(<<TString, TNumber, TNull>>), Uni(<<TNumber, TNull>>)>>),
   Util("Extract", <<Uni(<<LS("a"), LN("1"), TNull>>), Uni(<<TString, TNull>>)>>),
+  \* a template literal type that passes through the semantic engine (Exclude / Extract keep it)
+  Util("Exclude", <<Uni(<<Tpl(<<TpLit("a"), TpStr>>), TNumber>>), TNumber>>), Util("Extract", <<Uni(<<Tpl(<<TpLit("x"), TpNum>>), TNull>>), TString>>),
+  \* Partial of an object that has declared properties next to an index signature
+  Util("Partial", <<Obj(<<Prop("a", TString, FALSE)>>, <<Ix(TString, TString)>>)>>),
   Util("NonNullable", <<Uni(<<TString, TNull, TUndef>>)>>),
   Cond(RO, RP, LN("1"), LN("2")), Cond(RO, OO(<<Prop("a", TString, FALSE)>>), LN("1"), LN("2")), Cond(LS("a"), RK, RO, RP),
   Cond(TString, RK, LN("1"), LN("2")), Cond(Arr(LN("1")), Arr(TNumber), LS("yes"), LS("no")),
